@@ -6,18 +6,61 @@ class C06(Check):
     props_rel = "Props/C06"
     corr_module = "Corr.C06"
     corr_rel = "Corr/C06"
-    model_desc = ("Model/ZoneSpec.v: abstract zones (records with owner/TTL/class omitted or given in either order, "
-                  "$ORIGIN, $TTL), denote as a fold over (origin, previous owner, $TTL value, last stated TTL, configured "
-                  "default), name completion, TTL unit arithmetic, token skeletons; parser and lexer models shared with "
-                  "C07 (Model/Lexer.v, Model/Zone.v)")
-    rule = ""
-    partial = []
-    trusted = []
+    model_desc = ("Model/ZoneSpec.v (specification, written from RFC 1035 5.1 / RFC 2308 4 independently of the parser "
+                  "model): abstract zones (records with owner, TTL, class omitted or given, TTL and class in either "
+                  "order; $ORIGIN; $TTL), denote = fold over (origin, previous owner, $TTL value, last stated TTL, "
+                  "configured default), name completion, TTL unit arithmetic, token skeletons sk_zone, $GENERATE "
+                  "templates (literal / $ / ${...}) with their substitution. Parser and lexer models are those of "
+                  "C07: Model/Lexer.v (zlexer.Next), Model/Zone.v (ZoneParser.Next state machine, toAbsoluteName, "
+                  "stringToTTL, generateReader.ReadByte, modToPrintf, Sprintf of int64, $INCLUDE with the file "
+                  "systems as section variables, RDATA families single name / A / AAAA / TXT-like / RFC3597).")
+    rule = ("semantic stream: 260 random abstract zones (thorough x20) x 6 random equivalent renderings each "
+            "(blank/tab runs, upper/lower/mixed-case directives and mnemonics, TYPEnnn/CLASSnnn spellings, "
+            "TTL spellings with unit suffixes, TTL/class order, relative vs completed names, @ vs origin, quoted vs "
+            "bare strings, parentheses around the RDATA with line breaks and comments inside, trailing comments, "
+            "blank and comment-only lines, LF/CRLF, missing final line end); direct oracles: every rendering parses to "
+            "the records of an independent Go denotation (C06/denote/*), the lexer's tokens of the plain rendering "
+            "are the zone's skeleton (C06/lex-render/skeleton); exhaustive stream: 2 owner forms x 5 TTL/class "
+            "shapes x 8 combinations of TTL sources (default, $TTL, stated earlier) x 3 renderings; 120 $GENERATE "
+            "templates (ranges with steps, $ and ${offset,width,base} in bases d/o/x/X, escaped \\$) against an "
+            "independent expansion; 120 $INCLUDE scenarios (before / file with optional origin argument / after, "
+            "FS and no FS) against before ++ denote(file) ++ after; TTL texts and name completion against the "
+            "library helpers. Model cases: the Coq denote on every abstract zone (case 'denote') must print the Go "
+            "denotation, the Coq lexer on the plain rendering must realize the Coq skeleton (case 'skel'), and the "
+            "parser model must reproduce the implementation's outcome on 2 renderings per zone and on every "
+            "shape/generate/include text (case 'parse'). A case is non-trivial when its main argument is longer "
+            "than two octets.")
+    partial = [
+        "lex_render (text -> tokens) is not proved: that the lexer turns a rendering into the zone's token skeleton "
+        "is checked per case (Coq lexer model on the plain rendering of every generated zone, case 'skel'; the "
+        "implementation's lexer by the oracle C06/lex-render/skeleton) and, for the richer spellings, through the "
+        "equivalence oracle on the implementation; zp_refines starts from the tokens",
+        "zp_refines covers records, $ORIGIN and $TTL; $GENERATE and $INCLUDE are separate theorems "
+        "(generate_expand on the generated text, include_keeps_origin / include_splice on one step of Next) and "
+        "are composed with the rest by correspondence only",
+        "RDATA is restricted to the families single name / address / quoted strings / RFC3597 generic; an address "
+        "is denoted by the model's own ParseIP (no independent specification of address syntax here); \\# on "
+        "registered types is outside the theorem",
+        "zones without a denotation (no owner to repeat, no TTL to take) are outside zp_refines; the "
+        "implementation yields an empty owner resp. TTL 0 or 'missing TTL' for them",
+        "generate_expand requires literal text free of $ and backslash and a bare $ not followed by $ or {; "
+        "escapes (\\$, \\\\, $$) are covered by correspondence (case 'gen' of C07 and the generate stream)",
+        "two lexer deviations are excluded from the rendering grammar and reported as findings: a comment inside "
+        "parentheses re-enables type/class recognition for the following RDATA words "
+        "(C06/comment-in-parentheses/rdata-word-retyped), and a directive argument that spells a mnemonic is read "
+        "as a type or class (C06/directive-argument-mnemonic)",
+    ]
+    trusted = [
+        "the Go denotation in harness/c06 and the Coq denote are written separately and compared on every "
+        "generated zone",
+        "tables, ToUpper model and inotify observation as for C07",
+    ]
     shard_size = 250
 
     def nontrivial(self, c):
         a = c.get("args") or [""]
-        return len(a[-1 if c.get("fn") == "denote" else 0]) > 4
+        k = {"parse": 5, "denote": 2, "skel": 1}.get(c.get("fn"), 0)
+        return len(a) > k and len(a[k]) > 4
 
 
 CHECK = C06()
